@@ -20,8 +20,11 @@ def sh(cmd, cwd=None, timeout=None, env=None, check=True):
     e = dict(os.environ)
     if env:
         e.update(env)
-    p = subprocess.run(cmd, cwd=cwd, timeout=timeout, env=e, stdout=subprocess.PIPE,
-                       stderr=subprocess.STDOUT, text=True)
+    try:
+        p = subprocess.run(cmd, cwd=cwd, timeout=timeout, env=e, stdout=subprocess.PIPE,
+                           stderr=subprocess.STDOUT, text=True)
+    except subprocess.TimeoutExpired:
+        raise ToolError(f"command timed out after {timeout}s: {' '.join(cmd)[:300]}")
     if check and p.returncode != 0:
         raise ToolError(f"command failed ({p.returncode}): {' '.join(cmd)}\n{p.stdout[-3000:]}")
     return p
